@@ -106,6 +106,28 @@ class Checker:
         return counts
 
 
+def path_census(ck: 'Checker'):
+    """Thorough tier: enumerate the CFG paths (loops unrolled once, bounded) of every anchored function."""
+    from .cfg import CFG
+    from .exc import ExcLattice
+    from .flow import enumerate_paths
+
+    lat = ExcLattice(ck.repo)
+    total = 0
+    per = {}
+    for key in sorted(ck.analysed):
+        rel, qual = key.split('::')
+        try:
+            f = ck.repo.modules[rel].functions[qual]
+        except KeyError:
+            continue
+        cfg = CFG(f.node, lat, None)
+        paths = enumerate_paths(cfg, cfg.entry, loop_unroll=1, max_paths=5000)
+        per[key] = len(paths)
+        total += len(paths)
+    return {'paths_enumerated': total, 'paths_per_function': per}
+
+
 # ----------------------------------------------------------------------
 def load_known():
     known, fixed = [], []
@@ -144,8 +166,10 @@ def run_check(prop: str, run_rules, *, tier='quick', replay=None, thorough_extra
         run_rules(ck)
         counts = ck.check_minimums()
         extra = {}
-        if tier == 'thorough' and thorough_extra is not None:
-            extra = thorough_extra(ck) or {}
+        if tier == 'thorough':
+            extra = path_census(ck)
+            if thorough_extra is not None:
+                extra.update(thorough_extra(ck) or {})
     except (AnchorError, AnalysisError) as e:
         print(f'ANALYSIS-ERROR property={prop} {type(e).__name__}: {e}')
         return 2
@@ -166,6 +190,26 @@ def run_check(prop: str, run_rules, *, tier='quick', replay=None, thorough_extra
             known_hits.append((o, k))
         else:
             violations.append(o)
+
+    if tier == 'thorough' and not replay and not violations and not os.environ.get('MPSA_NO_SELFTEST'):
+        # the self-test says whether the checker itself can be believed on this tree: mutants of this property
+        # must be reported, equivalent rewrites must stay silent.  Skipped when the tree already violates the
+        # property (then the violation is the news).
+        try:
+            from selftest.engine import thorough_for
+
+            summary, failed_variants = thorough_for(prop, seed)
+        except Exception as e:  # noqa: BLE001
+            print(f'ANALYSIS-ERROR property={prop} self-test could not run: {type(e).__name__}: {e}')
+            return 2
+        extra.update(summary)
+        half = summary['selftest_variants'] // 2
+        if failed_variants or (summary['selftest_variants'] and len(summary['selftest_skipped']) > half):
+            for r in failed_variants[:10]:
+                print(f"  selftest {r['vid']}: {r['detail'][:200]}")
+            print(f'ANALYSIS-ERROR property={prop} selftest: {len(failed_variants)} variant(s) failed, {len(summary["selftest_skipped"])} skipped of {summary["selftest_variants"]}: the checker cannot be trusted on this tree')
+            return 2
+        print(f'  self-test: {summary["selftest_mutants_reported"]} mutants reported, {summary["selftest_equivalents_silent"]} equivalent rewrites silent, {len(summary["selftest_skipped"])} skipped')
 
     if replay:
         try:
